@@ -126,6 +126,49 @@ let verdict case impl =
         "diff " ^ find 0 Z0 samples
       end
     end
+  | ["E"; _serial; gen; nreq], [toks; consults; frames] ->
+    let with_gen = int_of_shex gen <> 0 and nreq = int_of_shex nreq in
+    let consults = int_of_shex consults and frames = int_of_shex frames in
+    let opt s = if s = "n" then None else Some (z_of_hex s) in
+    let toks = if toks = "-" then [] else String.split_on_char ',' toks in
+    if List.length toks <> nreq then "diff shape: expected " ^ string_of_int nreq ^ " requests"
+    else begin
+      let viol = ref "" and diff = ref "" and gens = ref [] and n_explicit = ref 0 in
+      List.iteri (fun i tok ->
+          match String.split_on_char '.' tok with
+          | [kind; e; o] ->
+            if o = "m" then (if !diff = "" then diff := Printf.sprintf "request %d (%s): no frame seen" i kind)
+            else if o = "d" then (if !diff = "" then diff := Printf.sprintf "request %d (%s): more than one frame" i kind)
+            else begin
+              let explicit = opt e and observed = opt o in
+              (* the generator's value is only visible through the frame itself *)
+              let gen_value = if with_gen && explicit = None then observed else None in
+              let expected = choose_ts explicit (if with_gen then (match explicit with None -> gen_value | Some _ -> Some Z0) else None) in
+              (match explicit with Some _ -> incr n_explicit | None -> ());
+              if expected <> observed then begin
+                match explicit with
+                | Some _ ->
+                  if !viol = "" then viol := Printf.sprintf "request %d (%s): statement timestamp %s but the frame carries %s" i kind e o
+                | None ->
+                  if !diff = "" then diff := Printf.sprintf "request %d (%s): no statement timestamp, generator configured=%b, frame carries %s" i kind with_gen o
+              end else if with_gen && explicit = None then
+                (match observed with
+                 | Some g -> gens := g :: !gens
+                 | None -> if !diff = "" then diff := Printf.sprintf "request %d (%s): generator configured but the frame has no timestamp" i kind)
+            end
+          | _ -> if !diff = "" then diff := "bad token " ^ tok) toks;
+      if !viol <> "" then "viol " ^ !viol
+      else if not (all_distinct [!gens]) then "viol generated timestamps in frames are not pairwise distinct: " ^ explain [List.sort compare !gens]
+      else if !diff <> "" then "diff " ^ !diff
+      else begin
+        (* gen_consulted: one next_timestamp call per frame whose statement has no timestamp *)
+        let expected_consults = if with_gen then frames - !n_explicit else 0 in
+        if consults <> expected_consults then
+          Printf.sprintf "diff model: %d next_timestamp calls for %d frames of which %d carry a statement timestamp (expected %d calls)"
+            consults frames !n_explicit expected_consults
+        else "ok"
+      end
+    end
   | _ -> "error unknown-case"
 
 let () = run_lines verdict
